@@ -286,6 +286,8 @@ func checkC03(c *Ctx) {
 
 	// the same tree whatever the spacing: where a name ends and the next token begins (rules of C04.ident)
 	borrowRule(c, "C04", "C04.ident", "C03.ident")
+	// every keyword spelling of the grammar (不等于, 不为, … included) is cut out as its token, else the production is never entered
+	borrowRule(c, "C04", "C04.trie", "C03.keywords")
 	// operator precedence and associativity are clauses of this property too (decided by C01's rules)
 	borrowRule(c, "C01", "C01.prec", "C03.prec")
 	borrowRule(c, "C01", "C01.assoc", "C03.assoc")
